@@ -1,6 +1,6 @@
 """C14 - migrating merchant_categories.csv to merchants.rules preserves classification.
 
-Exhaustive: every single-row CSV over the full product {21 regex patterns} x {16 modifier forms} x
+Exhaustive: every single-row CSV over the full product {24 regex patterns} x {16 modifier forms} x
 {merchant names} x {category set / empty} x {tags}, plus every ordered pair (triple in thorough) over a
 reduced row alphabet; each file x the transactions its patterns and modifiers can distinguish (descriptions
 x boundary amounts x boundary dates).  The real migration (_migrate_csv_to_rules) is run in a scratch
@@ -19,7 +19,7 @@ from mc.checks import rules_common as R
 
 PROPERTY = "C14"
 LEVEL = "exploration"
-RULE = ("cases = (a) every one-row CSV rule file over 21 patterns (plain, lookahead, \\b, back-reference, anchors, alternation, leading "
+RULE = ("cases = (a) every one-row CSV rule file over 24 patterns (plain, lookahead, \\b, back-reference, anchors, alternation, leading "
         "parenthesis, .*, char class, double quote, apostrophe, escaped +, literal backslash, \\d{3}, ' and ' inside a pattern, invalid regex) x "
         "16 modifier forms (none, amount > >= < <= = range, date = range lastNdays, month, two combined) x 3 merchant names x category "
         "set/empty x 3 tag forms; (b) every ordered pair (quick) / triple (thorough) over a 24-row reduced alphabet incl. comment and blank "
@@ -31,7 +31,9 @@ ASSUMPTIONS = ["a CSV file is 'accepted' when load_merchant_rules returns withou
 
 PATTERNS = ["NETFLIX", r"UBER\s(?!EATS)", r"\bUBER\b", r"(\w)\1", "^AMAZON", "GAS$", "AMAZON|AMZN", "(AMAZON|AMZN)", "COST.*GAS",
             "[A-C]OSTCO", 'SAY "HI"', "O'REILLY", r"C\+\+", r"A\\B", r"\d{3}", "BED and BATH", "NETFLIX(",
-            'PIZZA" #\\d+', r"ACME INC\.*", ".*GAS.*", r"DOTS\.*?"]
+            'PIZZA" #\\d+', r"ACME INC\.*", ".*GAS.*", r"DOTS\.*?",
+            # non-ASCII: a character outside the BMP; characters whose upper-case form is longer ('ß' -> 'SS')
+            "PIZZA \U0001F355", "STRASSE", "Straße"]
 MODS = ["", "[amount>100]", "[amount>=100]", "[amount<100]", "[amount<=100]", "[amount=99.75]", "[amount:50-200]",
         "[date=2025-01-15]", "[date:2025-01-01..2025-01-31]", "[month=12]", "[date:last30days]",
         "[amount>100][month=1]", "[amount:50-200][date:2025-01-01..2025-01-31]",
@@ -41,7 +43,7 @@ NAMES = ["Netflix", "A, B", "#Hash"]
 TAGS = ["", "a|b", "A"]
 DESCS = ["NETFLIX.COM 123", "UBER EATS", "UBER TRIP 77", "UBERX", "AMAZON MKTP", "PAY AMZN", "COSTCO GAS", "BLUE BOTTLE COFFEE",
          'SAY "HI" CAFE', "O'REILLY AUTO", "C++ BOOKS", "A\\B STORE", "cost plus gas", "BED and BATH", "AB",
-         '12" PIZZA" #55', "ACME INC...", "ACME INC", "DOTS", "DOTS.."]
+         '12" PIZZA" #55', "ACME INC...", "ACME INC", "DOTS", "DOTS..", "pizza \U0001F355 night", "straße 5", "HAUPTSTRASSE 7"]
 AMTS = [-50.0, 50.0, 99.75, 99.755, 100.0, 100.25, 200.0, 200.25, 12345.67, 12345.68, 12345.7, 1000000.25, 1000000.5, 2500000.25, 2500000.5]
 DATES = [None, "2024-12-31", "2025-01-01", "2025-01-15", "2025-01-31", "2025-02-01", "2025-05-15", "2025-05-16", "2025-06-15"]
 
